@@ -63,3 +63,5 @@ func main() {
 	a.Rest = fs.Args()
 	d(a)
 }
+
+func readFile(p string) ([]byte, error) { return os.ReadFile(p) }
